@@ -350,4 +350,10 @@ def ra_print (deg : Num) (n_dec : Int) : PyRes Printed :=
   | .ok a => .ok (dms_print a.deg n_dec)
   | .error e => .error e
 
+/-- `a.dms_str(fancy, n_dec)` as a method of the object: only `self._deg` is read
+    (`d, m, s, sign = Angle.deg2dms(self._deg)`, module constant `TOL`); the object's `_tol` plays no role. -/
+def angle_dms_print (a : Angle) (n_dec : Int) : Printed := dms_print a.deg n_dec
+/-- `a.ra_str(fancy, n_dec)` as a method of the object. -/
+def angle_ra_print (a : Angle) (n_dec : Int) : PyRes Printed := ra_print a.deg n_dec
+
 end Pymeeus.Gen@K@
